@@ -41,6 +41,15 @@ type NodeBehaviour struct {
 	NotReady         bool          // pods never become Ready
 	StuckTerminating bool          // terminating pods are never finalised
 	PhaseOverride    corev1.PodPhase
+	FailReason       string // status.reason of the pods a Failed override produces (default Evicted)
+}
+
+// createdRec remembers for which ExtendedDaemonSet and node the replica-set controller created a pod, whatever
+// labels the pod ended up with (a pod the controller can no longer find is still a pod of its ExtendedDaemonSet).
+type createdRec struct {
+	EDS, Node string
+	Seq       uint64
+	UID       string
 }
 
 // World is one simulated cluster.
@@ -54,6 +63,8 @@ type World struct {
 	Behav     map[string]*NodeBehaviour
 	Coop      bool // cooperative kubelet: ignore hostile knobs
 	nestSteps []string
+	// CreatedFor["ns/podname"]: see createdRec
+	CreatedFor map[string]createdRec
 	// TplLabels["ns/name"]: labels the user puts on every pod template of that ExtendedDaemonSet
 	TplLabels map[string]map[string]string
 	// phaseStart: virtual instant at which the current cooperative phase began
@@ -193,7 +204,7 @@ func (w *World) observeActsAfterFailedRead(inv *simapi.Invocation) {
 func (w *World) observeLivePods() {
 	cnt := map[string]int{}
 	for _, p := range kit.Pods(w.S) {
-		name := p.Labels[v1.ExtendedDaemonSetNameLabelKey]
+		name := w.edsNameOfPod(p)
 		if name == "" || p.DeletionTimestamp != nil || p.Status.Phase == corev1.PodFailed || p.Status.Phase == corev1.PodUnknown || p.Status.Phase == corev1.PodSucceeded {
 			continue
 		}
@@ -345,6 +356,9 @@ func (w *World) KubeletStep() {
 				pp.Status.Phase = b.PhaseOverride
 				if b.PhaseOverride == corev1.PodFailed {
 					pp.Status.Reason = "Evicted"
+					if b.FailReason != "" {
+						pp.Status.Reason = b.FailReason // rejected by the kubelet's admission
+					}
 				}
 				setPodCond(pp, corev1.PodCondition{Type: corev1.PodReady, Status: corev1.ConditionFalse, LastTransitionTime: metav1.NewTime(now)})
 				return
@@ -611,11 +625,20 @@ func copyMap(m map[string]string) map[string]string {
 func (w *World) DaemonPods(ns, name string) []*corev1.Pod {
 	var out []*corev1.Pod
 	for _, p := range kit.Pods(w.S) {
-		if p.Namespace == ns && p.Labels[v1.ExtendedDaemonSetNameLabelKey] == name {
+		if p.Namespace == ns && (p.Labels[v1.ExtendedDaemonSetNameLabelKey] == name || w.edsNameOfPod(p) == name) {
 			out = append(out, p)
 		}
 	}
 	return out
+}
+
+// edsNameOfPod: the ExtendedDaemonSet the pod belongs to: the one whose replica-set controller created it
+// (whatever its labels say), else the one its name label names.
+func (w *World) edsNameOfPod(p *corev1.Pod) string {
+	if rec, ok := w.CreatedFor[p.Namespace+"/"+p.Name]; ok && rec.UID == string(p.UID) {
+		return rec.EDS
+	}
+	return p.Labels[v1.ExtendedDaemonSetNameLabelKey]
 }
 
 // SortedNodeNames lists node names.
